@@ -245,3 +245,18 @@ Example C07_source_empty_chunk_object_example :
   (dor m <- src_cdm_init Z 0%Z (Z.eqb 0) (cdm_blank Z) 3%Z 4%Z 3%Z None; src_cdm_add_value Z 0%Z (Z.eqb 0) m 1%Z 0%Z 5%Z)
   = Err 98%Z.
 Proof. vm_compute. reflexivity. Qed.
+
+(* ---- the command-line wrapper calculate_distance_matrix.main is what the source says NOW ----
+   `src_cli_calculate_distance_matrix` is the whole function main of /repo's current batchie/cli/calculate_distance_matrix.py,
+   re-translated on every run (configuration CLI_DISTANCE_MATRIX -> Generated/SrcCli.v): the chunk named by --chunk-index / --n-chunks of
+   the pairwise matrix over the concatenation of the --thetas files (argument order), saved.
+   Model/Cli.v: the parsed arguments are a record of the plain argparse results (get_args() is not translated), `L` is a
+   record of the library functions the wrapper calls over abstract types (each component stands for the library function
+   of that name with its parameter list; `*_load_*` = what loading the file at a path yields), a main() denotes the list
+   of (path, content) files it writes, Err = the exception that ends it.  The links hold for EVERY such record. *)
+From Batchie Require Lib.PyRt Model.Cli Generated.SrcCli Proofs.C07SourceCli.
+Theorem C07_model_is_source_cli_calculate_distance_matrix : forall (Scr Th Me Dm : Type) (L : Cli.cd_lib Scr Th Me Dm) (a : Cli.cd_args),
+  SrcCli.src_cli_calculate_distance_matrix Scr Th Me Dm L a
+  = Cli.cli_calculate_distance_matrix L a.
+Proof. exact C07SourceCli.src_cli_calculate_distance_matrix_is_model. Qed.
+Print Assumptions C07_model_is_source_cli_calculate_distance_matrix.
